@@ -7,7 +7,7 @@ exit 0 held / exit 1 + 'VIOLATION property=Cxx replay=...' / exit 2 harness erro
 VERIF_SEED and VERIF_TIER are honoured.  Every run is a function of
 (tree, seed, tier): PYTHONHASHSEED is pinned to 0 by re-exec.
 """
-import os, sys, json, time, argparse, subprocess, importlib, tempfile, shutil
+import zlib, os, sys, json, time, argparse, subprocess, importlib, tempfile, shutil
 
 HERE = os.path.dirname(os.path.abspath(__file__))
 sys.path.insert(0, HERE)
@@ -58,8 +58,11 @@ def run_shard(mod, tier, seed, i, n, partial_out=None, work=None):
             mine = allst[i::n]
             each = max(getattr(mod, 'MIN_PER_STRATUM', 4), n_ex // max(1, len(mine)))
             t_shard = time.time()
-            for j, (name, strat) in enumerate(mine):
-                run.seed = shard_seed(seed, i) * 131 + j
+            for j, entry in enumerate(mine):
+                name, strat = entry[0], entry[1]
+                weight = entry[2] if len(entry) > 2 else 1          # optional third element: a multiple of the per-stratum budget
+                # the stratum's seed depends on VERIF_SEED and the stratum's NAME only: adding or reordering strata does not change what the others generate
+                run.seed = (seed * 1000003 + zlib.crc32(name.encode())) & 0x7fffffff
                 run.classes['stratum:' + name] += 0
                 left = None
                 if budget is not None:
@@ -68,7 +71,7 @@ def run_shard(mod, tier, seed, i, n, partial_out=None, work=None):
                     if left <= 0:
                         run.inconclusive['time_budget_hit'] += 1
                         break
-                core.hypothesis_search(run, strat, execute, triggers=triggers, max_examples=each,
+                core.hypothesis_search(run, strat, execute, triggers=triggers, max_examples=each * weight,
                                        shrink_budget_s=sb, time_budget_s=left)
                 if run.violations:
                     break
